@@ -67,10 +67,11 @@ def real_compile(schema, expr, ids):
     from prosemirror.model import content as C
     stream = C.TokenStream(expr, schema.nodes)
     if stream.next() is None:
-        return None, None
+        return None, None, None
     e = C.parse_expr(stream)
     n = C.nfa(e)
-    return dump_ast(e, ids), [[[ids[ed["term"].name] if ed["term"] else None, ed["to"]] for ed in edges] for edges in n]
+    return (dump_ast(e, ids), [[[ids[ed["term"].name] if ed["term"] else None, ed["to"]] for ed in edges] for edges in n],
+            [C.null_from(n, k) for k in range(len(n))])
 
 
 ENUM_NODES = {
@@ -206,7 +207,7 @@ def run(ctx):
             real = None
             if schema is not None:
                 st_, rc = outcome(lambda: real_compile(schema, expr, ids))
-                real = (dfa, rc[0], rc[1]) if st_ == "ok" else (dfa, "raised", "raised")
+                real = (dfa, rc[0], rc[1], rc[2]) if st_ == "ok" else (dfa, "raised", "raised", "raised")
             creqs.append({"op": "compile", "table": table, "expr": expr})
             cmetas.append((replay, real, name))
     outs = ctx.driver.run(reqs) if reqs else []
@@ -252,7 +253,7 @@ def run(ctx):
             if name == "enum" and o["parse"] == "ok" and not o.get("dead"):
                 ctx.mismatch("compile-accept", replay, "rejected", o)
             continue
-        dfa, ast, nfa_ = real
+        dfa, ast, nfa_, nulls = real
         if o["parse"] != "ok" or o.get("dead"):
             ctx.mismatch("compile-accept", replay, "accepted", o)
             continue
@@ -262,8 +263,12 @@ def run(ctx):
             ctx.mismatch("compile-ast", replay, ast, o["ast"])
         elif o["nfa"] != nfa_:
             ctx.mismatch("compile-nfa", replay, nfa_, o["nfa"])
+        elif o.get("nullFrom") != nulls:
+            ctx.mismatch("compile-nullFrom", replay, nulls, o.get("nullFrom"))
         elif o["dfa"] != dfa:
             ctx.mismatch("compile-dfa", replay, dfa, o["dfa"])
+        elif ast is not None and not o.get("wf"):
+            ctx.mismatch("compile-wf", replay, "Expr.wf of the parsed AST", o)
         else:
             ctx.count("compile_exact")
             ctx.count("compile_exact_states", len(dfa))
